@@ -4,6 +4,7 @@ import (
 	"fmt"
 	"os"
 	"strings"
+	"time"
 
 	"github.com/youchainhq/go-youchain/core"
 
@@ -54,9 +55,10 @@ func shrinkScenario(lines []string, k int, kind string) []string {
 	if rest == nil {
 		return lines
 	}
-	budget := 60
+	budget := 24
+	deadline := time.Now().Add(15 * time.Second)
 	fails := func(cand []string) bool {
-		if budget <= 0 {
+		if budget <= 0 || time.Now().After(deadline) {
 			return false
 		}
 		budget--
@@ -86,6 +88,9 @@ func shrinkScenario(lines []string, k int, kind string) []string {
 		cur = append(cur, b...)
 	}
 	// cut the tail after the failing block
+	if time.Now().After(deadline) {
+		return append(append([]string{}, header...), cur...)
+	}
 	if f, _, rr := oracleOnScenario(append(append([]string{}, header...), cur...), k); f && rr != nil && rr.viol != nil {
 		bl := splitBlocks(cur)
 		if rr.viol.at+1 < len(bl) {
@@ -222,7 +227,21 @@ func run(c *vh.Ctx) error {
 		defer drv.Close()
 	}
 	totalBlocks, totalReruns := 0, 0
+	// Bounds: a persistently failing tree must be REPORTED quickly, not explored to the end: at most maxOracleFails failing
+	// chains are collected (the first two are shrunk), and no new chain is started after the time cap of the tier.
+	const maxOracleFails = 4
+	oracleFails, shrunk := 0, 0
+	started := time.Now()
+	timeCap := time.Duration(c.N(150, 1500)) * time.Second
 	for ci := 0; ci < nChains; ci++ {
+		if oracleFails >= maxOracleFails {
+			res.Dist("chains-not-run: enough failing chains collected")
+			continue
+		}
+		if time.Since(started) > timeCap {
+			res.Dist("chains-not-run: time cap of the tier reached")
+			continue
+		}
 		r := c.R.Fork()
 		header, prof := genWorld(r)
 		s, _, err := newSession(header, K)
@@ -333,10 +352,14 @@ func run(c *vh.Ctx) error {
 			fmt.Fprintln(os.Stderr, "note: chain", ci, "stopped:", rr.stopErr)
 		}
 		if rr.viol != nil {
-			small := shrinkScenario(scenario, K, rr.viol.kind)
-			_, what, _ := oracleOnScenario(small, K)
-			if what == "" {
-				small, what = scenario, rr.viol.kind+": "+rr.viol.what
+			oracleFails++
+			small, what := scenario, rr.viol.kind+": "+rr.viol.what
+			if shrunk < 2 {
+				shrunk++
+				cand := shrinkScenario(scenario, K, rr.viol.kind)
+				if f, w, _ := oracleOnScenario(cand, K); f && w != "" {
+					small, what = cand, w
+				}
 			}
 			rp := vh.WriteReplay(c.ReplayDir, "C06", fmt.Sprintf("chain-%d", ci), c.Seed, []string{"oracle: " + what}, small)
 			res.Fail("oracle", "", what, rp)
